@@ -1,0 +1,32 @@
+//go:build verif
+
+package intersect
+
+// Contracts for the intersect plugin, read by /verif's gvc (comment-only file).
+
+//@ func (g *gen) Add(name string, typs []types.Type) (r string, err error)
+//@ param typs: len=0,1,2,3
+//@ param name: classes=Ident
+
+//@ func (g *gen) Generate(typs []types.Type) (err error)
+//@ param typs: len=1
+
+//@ func (g *gen) genMap(typ *types.Map) (err error)
+//@ emits: decls
+//@ serves: intersect len=1 kind=Map typ=typs[0]
+//@ o-sig: (this, that map[$key(typ)]struct{}) (r map[$key(typ)]struct{})
+//@ o-pure
+//@ o-ensures: [intersection] r != nil && forall k val :: (k in r) <==> (k in this && k in that)
+//@ o-loop: 1: invariant intersect != nil && forall k val :: (k in intersect) <==> (visited(k) && k in that)
+
+//@ func (g *gen) genSlice(typ *types.Slice) (err error)
+//@ emits: decls
+//@ serves: intersect len=1 kind=Slice typ=typs[0]
+//@ o-sig: (this, that []$elem(typ)) (r []$elem(typ))
+//@ o-pure
+//@ o-ensures: [only-common] forall k int :: 0 <= k && k < len(r) ==> elemOf(r[k], this) && contains(that, r[k])
+//@ o-ensures: [all-common] forall j int :: 0 <= j && j < len(this) && contains(that, this[j]) ==> elemOf(this[j], r)
+//@ o-ensures: [first-list-order] forall a int, b int :: 0 <= a && a < b && b < len(r) ==> exists c int, d int :: 0 <= c && c < d && d < len(this) && r[a] == this[c] && r[b] == this[d]
+//@ o-loop: 1: invariant forall k int :: 0 <= k && k < len(intersect) ==> (exists c int :: 0 <= c && c < $i && intersect[k] == this[c]) && contains(that, intersect[k])
+//@ o-loop: 1: invariant forall j int :: 0 <= j && j < $i && contains(that, this[j]) ==> elemOf(this[j], intersect)
+//@ o-loop: 1: invariant forall a int, b int :: 0 <= a && a < b && b < len(intersect) ==> exists c int, d int :: 0 <= c && c < d && d < $i && intersect[a] == this[c] && intersect[b] == this[d]
